@@ -32,6 +32,12 @@ def scrub(s):
 def canon_exc(x):
     """Canonical rendering of an exception; call ONLY inside the except block."""
     out = {"cls": type(x).__name__, "msg": scrub(str(x))[:500]}
+    try:
+        from jsonschema.exceptions import RefResolutionError
+        if isinstance(x, RefResolutionError):
+            out["rre"] = True           # "surfaces as RefResolutionError": a subclass qualifies
+    except Exception:
+        pass
     if hasattr(x, "message") and hasattr(x, "schema_path"):
         out["err"] = canon_error(x)
     return out
